@@ -7,7 +7,8 @@ from ..function import Function
 from ..number import Context
 from ..primitive import Primitive
 from .call_graph import CallGraph
-from .define_use import AssignDef, DefineUse, DefineUseAnalysis
+from .define_use import AssignDef, DefineUse, DefineUseAnalysis, Definition
+from .reaching_defs import same_object_defs
 
 
 class _ImpureError(Exception):
@@ -66,9 +67,36 @@ class _Purity(DefaultVisitor):
     def _visit_indexed_assign(self, stmt: IndexedAssign, ctx: None):
         super()._visit_indexed_assign(stmt, ctx)
         d = self.def_use.find_def_from_use(stmt)
-        if isinstance(d, AssignDef) and isinstance(d.site, Argument | FuncDef):
-            # modifying an argument or a free variable
+        if len(stmt.indices) != 1 or not self._is_own_list(d):
+            # modifying a list that something else may hold: an argument,
+            # a free variable, or anything reached through another name
             raise _ImpureError(f'Impure: Indexed assignment {stmt}')
+
+    def _is_own_list(self, d: Definition) -> bool:
+        """Does *d* hold a list this code allocated and bound directly,
+        whichever path was taken?  Storing into such a list (one level
+        deep) cannot be seen through a list that existed before."""
+        seen: set[int] = set()
+        work = [d]
+        while work:
+            d = work.pop()
+            if id(d) in seen:
+                continue
+            seen.add(id(d))
+            same = same_object_defs(d)
+            if same:
+                # an earlier store, or a merge: the same list(s)
+                work.extend(self.def_use.defs[i] for i in same)
+            elif not (
+                isinstance(d, AssignDef)
+                and isinstance(d.site, Assign)
+                and isinstance(d.site.target, NamedId)
+                and isinstance(d.site.expr, ListExpr | ListComp | ListSlice)
+            ):
+                # an argument, a free variable, a copy of another name,
+                # an element of another list, a call result, ...
+                return False
+        return True
 
 
 class Purity:
